@@ -1,6 +1,5 @@
 //! vc-graph: bounded-exhaustive exploration of the graph pipeline (E1) for
 //! C01 C02 C03 C04 C06 C09 and the graph halves of C18 C19 C20.
-mod case;
 mod pipe;
 mod props;
 
@@ -15,7 +14,7 @@ fn main() {
     vcommon::sweep::silence_panics();
     let args: Vec<String> = std::env::args().collect();
     if args.len() == 3 && args[1] == "--replay" {
-        std::process::exit(case::replay_file(&args[2]));
+        std::process::exit(vglue::case::replay_file(&args[2], &props::run_case, &props::replay_model));
     }
     if args.len() != 3 {
         usage();
@@ -30,9 +29,12 @@ fn main() {
         usage();
     }
     for p in &parts {
-        case::run_part(p, &mut rep);
+        vglue::case::run_part(p, &props::flag_names(prop), 0b101_1111, &props::run_case, &mut rep);
     }
-    props::extra(prop, tier, &mut rep);
+    if let Err(e) = std::panic::catch_unwind(std::panic::AssertUnwindSafe(|| props::extra(prop, tier, &mut rep))) {
+        let msg = e.downcast_ref::<String>().cloned().or_else(|| e.downcast_ref::<&str>().map(|x| x.to_string())).unwrap_or_default();
+        rep.violation(vcommon::report::Violation { signature: "panic".into(), case: serde_json::json!({"special": "extra engines"}), detail: format!("subject panicked outside the sweep: {}", msg) });
+    }
     props::finalize(prop, tier, &mut rep);
     std::process::exit(rep.finish());
 }
